@@ -694,6 +694,31 @@ def _unroll_pass(fn) -> bool:
     return changed
 
 
+FRESH_DICT_PROPS: set = set()  # names of properties whose every definition returns a dict display (set by report.Ctx)
+
+
+def _dict_merge_pass(fn) -> bool:
+    """`n = self.P; n.update(K)` with P a property that builds a new dictionary on every read is `n = {**self.P, **K}`:
+    the update writes into an object nobody else holds."""
+    changed = False
+    for _, _, stmts in _stmt_lists(fn):
+        i = 0
+        while i + 1 < len(stmts):
+            a, b = stmts[i], stmts[i + 1]
+            if (isinstance(a, ast.Assign) and len(a.targets) == 1 and isinstance(a.targets[0], ast.Name) and isinstance(a.value, ast.Attribute)
+                    and isinstance(a.value.value, ast.Name) and a.value.value.id == "self" and a.value.attr in FRESH_DICT_PROPS
+                    and isinstance(b, ast.Expr) and isinstance(b.value, ast.Call) and isinstance(b.value.func, ast.Attribute) and b.value.func.attr == "update"
+                    and isinstance(b.value.func.value, ast.Name) and b.value.func.value.id == a.targets[0].id and len(b.value.args) == 1 and not b.value.keywords
+                    and isinstance(b.value.args[0], (ast.Name, ast.Dict))):
+                a.value = ast.copy_location(ast.Dict(keys=[None, None], values=[a.value, b.value.args[0]]), a.value)
+                del stmts[i + 1]
+                changed = True
+            i += 1
+    if changed:
+        ast.fix_missing_locations(fn)
+    return changed
+
+
 def normalise(repo, finfo, keep=(), helpers=True, aliases=True, comps=True, ifexp=True):
     """(normalised function node, [inlined helper FuncInfo])."""
     used = []
@@ -703,6 +728,7 @@ def normalise(repo, finfo, keep=(), helpers=True, aliases=True, comps=True, ifex
     if fn is finfo.node:
         fn = inline._copy_node(fn)
     _allany_pass(fn)
+    _dict_merge_pass(fn)
     _quantifier_branch_pass(fn)
     _bool_argument_pass(fn)
     _nested_if_pass(fn)
